@@ -302,6 +302,27 @@ def run(ctx):
         if st["k"] == "assign" and st["rv"]["k"] == "aggregate" and st["rv"].get("variant") == "Var" and (st["rv"].get("adt") or "").endswith("ParsedToken"):
             term = org.op_term(st["rv"]["ops"][0])
             nvar += 1
+            # the scan moved into a private function that is handed the rest of the text and returns (name, length): read the
+            # name from the function's own return value, with the rest of the text put in for its parameter
+            mh_ = re.match(r"^(parser::\w+)\((std::ops::Index::index\(param:\w+, std::ops::RangeFrom::RangeFrom\{.*\}\))\)\.(\d)$", term)
+            hb_ = fb.bodies.get(mh_.group(1)) if mh_ else None
+            if hb_ is not None and hb_["kind"] == "Fn" and not hb_.get("public") and hb_["arg_count"] == 1 and hb_["locals"][1]["ty"] == "&str":
+                ht_ = _dom.Origins(hb_).def_term(0) or ""
+                if ht_.startswith("tuple{") and ht_.endswith("}"):
+                    parts_, depth_, cur_ = [], 0, ""
+                    for ch_ in ht_[6:-1]:
+                        if ch_ in "({[":
+                            depth_ += 1
+                        elif ch_ in ")}]":
+                            depth_ -= 1
+                        if ch_ == "," and depth_ == 0:
+                            parts_.append(cur_.strip())
+                            cur_ = ""
+                        else:
+                            cur_ += ch_
+                    parts_.append(cur_.strip())
+                    if int(mh_.group(3)) < len(parts_):
+                        term = parts_[int(mh_.group(3))].replace("param:%s" % hb_["locals"][1].get("name"), mh_.group(2))
             # the rest of the text from the current position (the start offset itself is not decided here)
             tm = _dom.parse_term(term)
 
